@@ -45,6 +45,7 @@ type outcome struct {
 	Ended   bool // false: no end of the call within the no-progress limit
 	Status  int  // 0: the connection was closed/reset without a complete response
 	Served  string
+	Body    string // first bytes of a complete response body
 	Elapsed time.Duration
 	Detail  string
 }
@@ -119,6 +120,7 @@ func getWithin(addr, id, xff string, acceptGzip bool, limit time.Duration) outco
 		out.Status = 0
 		return out
 	}
+	out.Body = string(body[:min(len(body), 160)])
 	switch {
 	case strings.HasPrefix(string(body), "good-backend"):
 		out.Served = "good"
@@ -269,6 +271,8 @@ type world struct {
 	fdBase    int
 	delivered int // steps of run 1 whose fault reached its target
 	healthURL string
+	requests  int // requests sent by the concurrent bursts (window-expiry cases)
+	volleys   int
 	canary    *canary
 	lastFault time.Time
 }
@@ -280,6 +284,9 @@ type Result struct {
 	Labels    []string
 	Log       string
 	YAML      string
+	Expiries  int      // "backend marked healthy" lines in the helios log (lazy expiry of an unhealthy window)
+	Requests  int      // requests sent by concurrent bursts
+	Volleys   int      // synchronised volleys among them
 	Stalls    []string // environment stalls the canary recorded during the (last) attempt
 	Reruns    []string // earlier attempts whose violation was discarded because of a recorded stall
 }
@@ -421,9 +428,25 @@ func (w *world) warmup() string {
 
 // runStep plays one fault step and applies oracle clause (i) to every client call of it.
 func (w *world) runStep(run, idx int, s Step) string {
+	v, _ := w.runStepOpt(run, idx, s, stepOpt{})
+	return v
+}
+
+// stepOpt: n > 0 overrides the burst size; both = BOTH backends play the fault for these requests
+// (directed sub-checks: the fault must land on one particular request whichever backend is picked).
+type stepOpt struct {
+	n     int
+	both  bool
+	quiet bool // do not record delivery classes (opening requests of a directed scenario)
+}
+
+func (w *world) runStepOpt(run, idx int, s Step, opt stepOpt) (string, []outcome) {
 	n := 4
 	if s.Concurrent > 0 {
 		n = s.Concurrent
+	}
+	if opt.n > 0 {
+		n = opt.n
 	}
 	type reg struct {
 		id      string
@@ -440,11 +463,17 @@ func (w *world) runStep(run, idx int, s Step) string {
 		default:
 			gs = okScript("good")
 		}
+		if opt.both {
+			gs = faultScript(s.Fault, k, !lab.Open(KeyBodyStall))
+		}
 		regs[k] = reg{id, w.good.Expect(id, gs), w.faulty.Expect(id, faultScript(s.Fault, k, !lab.Open(KeyBodyStall)))}
 	}
-	acceptsBefore := w.faulty.Accepts()
+	faultyBefore, goodBefore := w.faulty.Accepts(), w.good.Accepts()
 	if s.Fault == "refuse" {
 		w.faulty.Refuse(true)
+		if opt.both {
+			w.good.Refuse(true)
+		}
 	}
 	outs := make([]outcome, n)
 	call := func(k int) {
@@ -477,21 +506,24 @@ func (w *world) runStep(run, idx int, s Step) string {
 	w.lastFault = time.Now()
 	if s.Fault == "refuse" {
 		w.faulty.Refuse(false)
+		w.good.Refuse(false)
 	}
 	delivered := false
 	for _, r := range regs {
 		lab.CloseBarrier(r.exFault) // releases a stalled slow-body
 		lab.CloseBarrier(r.exGood)
-		if lab.SeenOf(r.exFault) != nil || (abortFault(s.Fault) && lab.SeenOf(r.exGood) != nil) {
+		if lab.SeenOf(r.exFault) != nil || ((abortFault(s.Fault) || opt.both) && lab.SeenOf(r.exGood) != nil) {
 			delivered = true
 		}
 		w.good.Forget(r.id)
 		w.faulty.Forget(r.id)
 	}
-	if s.Fault == "refuse" && w.faulty.Accepts() > acceptsBefore {
+	if s.Fault == "refuse" && (w.faulty.Accepts() > faultyBefore || (opt.both && w.good.Accepts() > goodBefore)) {
 		delivered = true // a new connection was reset on accept
 	}
-	if delivered {
+	if opt.quiet {
+		// not part of the fault under test
+	} else if delivered {
 		w.label("delivered:" + s.Fault)
 		if run == 1 {
 			w.delivered++
@@ -508,11 +540,234 @@ func (w *world) runStep(run, idx int, s Step) string {
 			w.label(fmt.Sprintf("ends:%d", o.Status))
 		}
 		if !o.Ended {
-			return fmt.Sprintf("(i) wedged: %s request %d had neither a response nor a closed connection %v after it was sent: %s; all calls of the step: %v", where, k, wedgeAfter, o.Detail, outs)
+			return fmt.Sprintf("(i) wedged: %s request %d had neither a response nor a closed connection %v after it was sent: %s; all calls of the step: %v", where, k, wedgeAfter, o.Detail, outs), outs
 		}
 		if o.Elapsed > endBound {
-			return fmt.Sprintf("(i) late: %s request %d ended only after %v, bound 2*(read+write+backend_dial+backend_read)+2 s = %v; all calls of the step: %v", where, k, o.Elapsed.Round(time.Millisecond), endBound, outs)
+			return fmt.Sprintf("(i) late: %s request %d ended only after %v, bound 2*(read+write+backend_dial+backend_read)+2 s = %v; all calls of the step: %v", where, k, o.Elapsed.Round(time.Millisecond), endBound, outs), outs
 		}
+	}
+	return "", outs
+}
+
+// ---------------------------------------------------------------------------------------------
+// Directed scenario 1: a fault on the circuit breaker's half-open trial request
+// ---------------------------------------------------------------------------------------------
+
+// breakerTrial opens the breaker with the opening fault (both backends play it, so that every
+// request fails whichever backend is picked), verified by the proxy's own 503 "circuit breaker is
+// open"; waits breaker timeout + 0.2 s measured from the last failure; then sends ONE request that
+// carries the trial fault on both backends: it is the request the half-open breaker admits.
+func (w *world) breakerTrial(run int, c Case) string {
+	opened := false
+	var lastFailure time.Time
+	for k := 0; k < 8 && !opened; k++ {
+		v, outs := w.runStepOpt(run, 1, Step{Fault: c.Opening}, stepOpt{n: 1, both: true, quiet: true})
+		if v != "" {
+			return v
+		}
+		o := outs[0]
+		if o.Status == 503 && strings.Contains(o.Body, "circuit breaker is open") {
+			opened = true
+		} else {
+			lastFailure = time.Now()
+		}
+	}
+	if !opened {
+		w.label("breaker-did-not-open")
+		return ""
+	}
+	if run == 1 {
+		w.label("breaker-opened")
+	}
+	time.Sleep(time.Until(lastFailure.Add(time.Duration(cbTimeout)*time.Second + 200*time.Millisecond)))
+	before := w.delivered
+	v, outs := w.runStepOpt(run, 2, c.Steps[0], stepOpt{n: 1, both: true})
+	if v != "" {
+		return v
+	}
+	if run == 1 {
+		if o := outs[0]; o.Status == 503 && strings.Contains(o.Body, "circuit breaker is open") {
+			w.label("trial-not-admitted")
+		} else if w.delivered > before {
+			w.label("fault-on-trial")
+		}
+		w.delivered = min(w.delivered, 1) // one scenario = one fault to deliver (Steps has length 1)
+	}
+	return ""
+}
+
+// ---------------------------------------------------------------------------------------------
+// Directed scenario 2: concurrent traffic across the instants at which unhealthy windows expire
+// ---------------------------------------------------------------------------------------------
+
+// hammer: FAULTY answers 5xx to everything (so passive checks eject it, the window expires after
+// 1 s, it is re-admitted, fails again, ...), GOOD answers 200; c.Clients keep-alive clients send
+// bodiless GETs for c.Seconds. The first c.FreeRunning clients send back to back on their own; the
+// others send in volleys: every client of a volley has its connection open and waits at a barrier,
+// then all write their request at the same instant, so that the first requests after a window
+// expires reach the re-admission path together. Clause (i) applies to every single request.
+func (w *world) hammer(run int, c Case) string {
+	// During the burst both backends answer "Connection: close" and close first: Helios then never
+	// pools or actively closes a backend connection. (With pooled connections its transport closes
+	// every connection beyond MaxIdleConnsPerHost=10 right after use; at 16-64 concurrent requests
+	// that leaves tens of thousands of sockets in TIME_WAIT on ephemeral ports and the labs of this
+	// machine can no longer bind a listener - a harness resource problem, not a property of C03.)
+	w.faulty.Fallback(&lab.RespScript{Status: 500, Framing: "close", Body: []byte("faulty-backend boom"), BarrierAfter: -1, Header: textPlain})
+	gs := okScript("good")
+	gs.Framing = "close"
+	w.good.Fallback(gs)
+	defer w.faulty.Fallback(okScript("faulty"))
+	defer w.good.Fallback(okScript("good"))
+	end := time.Now().Add(time.Duration(c.Seconds) * time.Second)
+	var mu sync.Mutex
+	counts := map[int]int{}
+	var viol atomic.Value
+	var total int64
+	fail := func(msg string) { viol.CompareAndSwap(nil, msg) }
+	failed := func() bool { return viol.Load() != nil }
+
+	type client struct {
+		g     int
+		xff   string
+		conn  net.Conn
+		br    *bufio.Reader
+		n     int
+		tally map[int]int
+	}
+	// connect makes sure the client has an open connection (before the barrier of a volley)
+	connect := func(cl *client) bool {
+		if cl.conn != nil {
+			return true
+		}
+		c2, o := dial(w.proxy, time.Now(), wedgeAfter)
+		if o != nil {
+			if !o.Ended {
+				fail(fmt.Sprintf("(i) wedged: run %d client %d: connect not accepted for %v during the concurrent burst", run, cl.g, wedgeAfter))
+			}
+			cl.tally[0]++
+			time.Sleep(time.Millisecond)
+			return false
+		}
+		cl.conn, cl.br = c2, bufio.NewReader(c2)
+		return true
+	}
+	// exchange sends one request on the open connection and waits for its end
+	exchange := func(cl *client) {
+		start := time.Now()
+		_ = cl.conn.SetDeadline(start.Add(wedgeAfter))
+		cl.n++
+		_, err := cl.conn.Write([]byte(head("GET", fmt.Sprintf("h%d-%d-%d", run, cl.g, cl.n), cl.xff, "")))
+		var resp *http.Response
+		if err == nil {
+			resp, err = http.ReadResponse(cl.br, &http.Request{Method: "GET"})
+		}
+		if err == nil {
+			_, err = io.Copy(io.Discard, resp.Body)
+		}
+		el := time.Since(start)
+		atomic.AddInt64(&total, 1)
+		switch {
+		case err != nil && isTimeout(err):
+			fail(fmt.Sprintf("(i) wedged: run %d client %d request %d of the concurrent burst had neither a response nor a closed connection %v after it was sent (%v)", run, cl.g, cl.n, wedgeAfter, err))
+		case el > endBound:
+			fail(fmt.Sprintf("(i) late: run %d client %d request %d of the concurrent burst ended only after %v, bound %v", run, cl.g, cl.n, el.Round(time.Millisecond), endBound))
+		case err != nil:
+			cl.tally[0]++
+			reset(cl.conn)
+			cl.conn = nil
+		default:
+			cl.tally[resp.StatusCode]++
+			if resp.Close {
+				reset(cl.conn)
+				cl.conn = nil
+			}
+		}
+	}
+	finish := func(cl *client) {
+		if cl.conn != nil {
+			reset(cl.conn)
+		}
+		mu.Lock()
+		for k, v := range cl.tally {
+			counts[k] += v
+		}
+		mu.Unlock()
+	}
+	clients := make([]*client, c.Clients)
+	for g := range clients {
+		clients[g] = &client{g: g, xff: w.pickXFF(g), tally: map[int]int{}}
+	}
+	free := min(c.FreeRunning, c.Clients)
+	var wg sync.WaitGroup
+	for _, cl := range clients[:free] {
+		wg.Add(1)
+		go func(cl *client) {
+			defer wg.Done()
+			defer finish(cl)
+			for time.Now().Before(end) && !failed() {
+				if connect(cl) {
+					exchange(cl)
+				}
+				time.Sleep(time.Millisecond) // paced: volume is not the point, being in flight at expiry instants is
+			}
+		}(cl)
+	}
+	if vol := clients[free:]; len(vol) > 0 {
+		type round struct {
+			ready, done *sync.WaitGroup
+			start       chan struct{}
+		}
+		feeds := make([]chan *round, len(vol))
+		for i, cl := range vol {
+			feeds[i] = make(chan *round, 1)
+			wg.Add(1)
+			go func(cl *client, feed chan *round) {
+				defer wg.Done()
+				defer finish(cl)
+				for r := range feed {
+					ok := connect(cl)
+					r.ready.Done()
+					<-r.start
+					if ok && !failed() {
+						exchange(cl)
+					}
+					r.done.Done()
+				}
+			}(cl, feeds[i])
+		}
+		for time.Now().Before(end) && !failed() {
+			r := &round{ready: &sync.WaitGroup{}, done: &sync.WaitGroup{}, start: make(chan struct{})}
+			r.ready.Add(len(vol))
+			r.done.Add(len(vol))
+			for _, f := range feeds {
+				f <- r
+			}
+			r.ready.Wait()
+			began := time.Now()
+			close(r.start)
+			r.done.Wait()
+			w.volleys++
+			time.Sleep(time.Until(began.Add(volleyPeriod))) // at most 100 volleys a second
+		}
+		for _, f := range feeds {
+			close(f)
+		}
+	}
+	wg.Wait()
+	w.lastFault = time.Now()
+	w.requests += int(total)
+	for st := range counts {
+		if st == 0 {
+			w.label("ends:closed")
+		} else {
+			w.label(fmt.Sprintf("ends:%d", st))
+		}
+	}
+	if v := viol.Load(); v != nil {
+		return v.(string) + fmt.Sprintf("; answers so far by status (0 = closed): %v", counts)
+	}
+	if run == 1 && counts[500] > 0 {
+		w.delivered = 1
 	}
 	return ""
 }
@@ -530,7 +785,7 @@ func (w *world) gaugesZero(when string) string {
 					bad = true
 				}
 			}
-			if !bad && len(bs) == 2 {
+			if !bad && len(bs) == w.c.Cfg.backends() {
 				return ""
 			}
 			last = fmt.Sprintf("%+v", bs)
@@ -547,8 +802,9 @@ func (w *world) gaugesZero(when string) string {
 	}
 }
 
-// recovery is clause (ii): from fresh client addresses, a request is answered 200 by a backend within
-// the window, the next 5 succeed, and no backend stays ejected although it answers again.
+// recovery is clause (ii): from fresh client addresses, within the window a request is answered 200
+// by a backend and the next 5 succeed too (a failure in between restarts the count), and no backend
+// stays ejected although it answers again.
 func (w *world) recovery(run int) string {
 	start := w.lastFault
 	probe := func() outcome {
@@ -562,8 +818,9 @@ func (w *world) recovery(run int) string {
 		return o
 	}
 	var history []string
-	first := time.Duration(-1)
-	okAfter := 0
+	first := time.Duration(-1) // first success of the current run of consecutive successes
+	streak := 0                // consecutive successes
+	everOK := false
 	for {
 		o := probe()
 		since := time.Since(start)
@@ -571,32 +828,38 @@ func (w *world) recovery(run int) string {
 		if !o.Ended {
 			return fmt.Sprintf("(ii) wedged: run %d recovery probe had no end %v after it was sent; probes: %v", run, wedgeAfter, history)
 		}
-		good := o.Status == 200 && o.Served != ""
-		switch {
-		case first < 0 && good:
-			first = since
-			switch {
-			case first <= time.Second:
-				w.label("recovered<=1s")
-			case first <= 2*time.Second:
-				w.label("recovered<=2s")
-			case first <= recoveryNominal:
-				w.label("recovered<=4s")
-			default:
-				w.label("recovered<=8s")
+		if good := o.Status == 200 && o.Served != ""; good {
+			if streak == 0 {
+				first = since
 			}
-		case first >= 0 && okAfter < 5:
-			if !good {
-				return fmt.Sprintf("(ii) run %d: a request succeeded %v after the last fault, but follow-up request %d of 5 did not: %v; probes: %v", run, first.Round(time.Millisecond), okAfter+1, o, tailStrs(history, 12))
+			streak++
+			everOK = true
+			if o.Served == "faulty" {
+				w.label("faulty-backend-serves-again")
 			}
-			okAfter++
+		} else {
+			if streak > 0 {
+				// the bookkeeping of a faulted request whose client call has already ended (client abort,
+				// reset) may still open the breaker or eject a backend inside the window: count again
+				w.label("recovery-restarted-by-late-fault-effect")
+			}
+			streak = 0
 		}
-		if o.Served == "faulty" && first >= 0 {
-			w.label("faulty-backend-serves-again")
-		}
-		if first >= 0 && okAfter >= 5 {
+		if streak >= 6 {
+			if streak == 6 {
+				switch {
+				case first <= time.Second:
+					w.label("recovered<=1s")
+				case first <= 2*time.Second:
+					w.label("recovered<=2s")
+				case first <= recoveryNominal:
+					w.label("recovered<=4s")
+				default:
+					w.label("recovered<=8s")
+				}
+			}
 			bs, err := w.backends()
-			allHealthy := err == nil && len(bs) == 2
+			allHealthy := err == nil && len(bs) == w.c.Cfg.backends()
 			for _, b := range bs {
 				allHealthy = allHealthy && b.Healthy
 			}
@@ -604,11 +867,13 @@ func (w *world) recovery(run int) string {
 				return ""
 			}
 			if since > recoveryWatchdog {
-				return fmt.Sprintf("(ii) permanently degraded: run %d: %v after the last fault both backends answer every request, but /v1/backends still reports an ejected backend: %+v (err %v); probes: %v", run, since.Round(time.Millisecond), bs, err, tailStrs(history, 8))
+				return fmt.Sprintf("(ii) permanently degraded: run %d: %v after the last fault all backends answer every request, but /v1/backends still reports an ejected backend: %+v (err %v); probes: %v", run, since.Round(time.Millisecond), bs, err, tailStrs(history, 8))
 			}
-		}
-		if first < 0 && since > recoveryWatchdog {
-			return fmt.Sprintf("(ii) no recovery: run %d: no request was answered 200 by a backend within %v after the last fault (nominal window %v); probes: %v", run, recoveryWatchdog, recoveryNominal, tailStrs(history, 12))
+		} else if since > recoveryWatchdog {
+			if !everOK {
+				return fmt.Sprintf("(ii) no recovery: run %d: no request was answered 200 by a backend within %v after the last fault (nominal window %v); probes: %v", run, recoveryWatchdog, recoveryNominal, tailStrs(history, 12))
+			}
+			return fmt.Sprintf("(ii) no stable recovery: run %d: within %v after the last fault there was no point from which a request and the next 5 all succeeded (current run of successes: %d); probes: %v", run, recoveryWatchdog, streak, tailStrs(history, 16))
 		}
 		if ex, code := w.h.Exited(); ex {
 			return fmt.Sprintf("(iii) crashed: helios exited with code %d during the recovery probes of run %d", code, run)
@@ -673,6 +938,9 @@ func (w *world) alive(when string) string {
 // ---------------------------------------------------------------------------------------------
 
 const stallLimit = time.Second
+
+// volleyPeriod paces the synchronised volleys of a concurrent burst.
+const volleyPeriod = 10 * time.Millisecond
 
 type canary struct {
 	mu     sync.Mutex
@@ -751,7 +1019,21 @@ func RunCase(t testing.TB, c Case) Result {
 
 // runOnce executes one case completely: start, warm-up, the fault sequence twice, each time
 // followed by clauses (ii)-(iv).
+// labSlots bounds the number of labs (helios process + 2 raw backends + clients) a shard runs at the
+// same time, across all sub-checks (the test functions run in parallel).
+var labSlots = make(chan struct{}, lab.Scale(20, 12))
+
+// burstSlots: one window-expiry lab per shard at a time (its clients and the backends behind them
+// are the only CPU-heavy part of this package; more of them at once starve the timing of all labs).
+var burstSlots = make(chan struct{}, 1)
+
 func runOnce(t testing.TB, c Case) (res Result) {
+	if c.Kind == "window-expiry" {
+		burstSlots <- struct{}{}
+		defer func() { <-burstSlots }()
+	}
+	labSlots <- struct{}{}
+	defer func() { <-labSlots }()
 	w, why := startWorld(t, c)
 	if w == nil {
 		return Result{Harness: why}
@@ -765,10 +1047,14 @@ func runOnce(t testing.TB, c Case) (res Result) {
 		}
 		res.YAML = w.yaml
 		res.Log = w.h.Log()
+		res.Expiries = strings.Count(res.Log, `"message":"backend marked healthy"`)
+		res.Log = tail(res.Log, 256<<10) // a concurrent burst logs tens of MB
+		res.Requests = w.requests
+		res.Volleys = w.volleys
 		if w.delivered > 0 {
 			w.label("fault-delivered")
 		}
-		if w.delivered == len(c.Steps) {
+		if w.delivered == len(c.Steps) && c.Kind == "" {
 			w.label("all-faults-delivered")
 		}
 		for l := range w.labels {
@@ -788,13 +1074,27 @@ func runOnce(t testing.TB, c Case) (res Result) {
 	base := w.fdBase
 	var fds [2]int
 	for run := 0; run < 2; run++ {
-		for i, s := range c.Steps {
-			if v := w.runStep(run+1, i+1, s); v != "" {
+		switch c.Kind {
+		case "breaker-trial":
+			if v := w.breakerTrial(run+1, c); v != "" {
 				return Result{Violation: v}
 			}
-			if v := w.alive(fmt.Sprintf("after run %d step %d (%s)", run+1, i+1, s.Fault)); v != "" {
+		case "window-expiry":
+			if v := w.hammer(run+1, c); v != "" {
 				return Result{Violation: v}
 			}
+		default:
+			for i, s := range c.Steps {
+				if v := w.runStep(run+1, i+1, s); v != "" {
+					return Result{Violation: v}
+				}
+				if v := w.alive(fmt.Sprintf("after run %d step %d (%s)", run+1, i+1, s.Fault)); v != "" {
+					return Result{Violation: v}
+				}
+			}
+		}
+		if v := w.alive(fmt.Sprintf("after the faults of run %d", run+1)); v != "" {
+			return Result{Violation: v}
 		}
 		if v := w.gaugesZero(fmt.Sprintf("after the fault sequence (run %d)", run+1)); v != "" {
 			return Result{Violation: v}
